@@ -369,40 +369,70 @@ def b_before(ex: Exec, node: ast.Call) -> SV:
 
 
 def b_fold_prefix(ex: Exec, node: ast.Call) -> SV:
-    """fold_prefix(lambda acc, x: step, init, S, n): the value of folding `step`
-    over the first n elements of sequence S.  The engine supplies the unfolding
-    instance F(n) = step(F(n-1), S[n-1]) at the indices it meets (definitional
-    axiom of fold, trusted)."""
+    """fold_prefix(lambda acc, x: step, init, S, n): the value of folding `step` over
+    the first n elements of sequence S (accumulator: a real number, or a set when
+    `init` is a set).  First-order ghost function (pyvc/lift.py) whose defining
+    equations F(0) = init, F(n) = step(F(n-1), S[n-1]) are supplied as instances at
+    the indices met (definition of fold, trusted)."""
+    from . import lift
+
     lam = node.args[0]
     init = ex.eval(node.args[1])
     s = ex.eval(node.args[2])
     n = ex.eval(node.args[3])
     st = s.t if s.ty.kind == "raw" else ex.seq(s)
     ety = (s.aux if isinstance(s.aux, T.Ty) else T.ANY) if s.ty.kind == "raw" else ex.elem_ty(s.ty)
-    acc = z3.Const("acc!f", S.REAL)
+    is_set = init.ty.kind in ("raw", "set") and not init.ty.is_num
+    if is_set:
+        init_t = init.t if init.ty.kind == "raw" else ex.ddom(init)
+        acc = z3.Const("acc!f", S.SETV)
+        acc_sv = SV(acc, T.RAW)
+    else:
+        init_t = ex.num(init)
+        acc = z3.Const("acc!f", S.REAL)
+        acc_sv = SV(S.mk_real(acc), T.REAL)
     x = z3.Const("x!f", S.Val)
     saved = dict(ex.locals)
     ex.bound_depth = getattr(ex, "bound_depth", 0) + 1
     try:
-        ex.locals[lam.args.args[0].arg] = SV(S.mk_real(acc), T.REAL)
-        xv = ex.typed_nopc(x, ety)
-        ex.locals[lam.args.args[1].arg] = xv
+        ex.locals[lam.args.args[0].arg] = acc_sv
+        ex.locals[lam.args.args[1].arg] = ex.typed_nopc(x, ety)
         body = ex.eval(lam.body)
-        step = ex.num(body)
+        step = body.t if is_set else ex.num(body)
     finally:
         ex.locals = saved
         ex.bound_depth -= 1
-    from . import lift
-
     nt = S.un_int(n.t)
-    term, insts = lift.fold_term(ex, acc, x, step, ex.num(init), st, nt)
+    term, insts = lift.fold_term(ex, acc, x, step, init_t, st, nt)
     if getattr(ex, "bound_depth", 0) == 0:
         for i in insts:
             ex.assume(i)
     ex.note_assumption(
         "fold_prefix: F(0) = init and F(n) = step(F(n-1), S[n-1]) for 1 <= n <= len(S) (definition of fold, instantiated at the indices met)"
     )
+    if is_set:
+        return SV(term, T.RAW)
     return SV(S.mk_real(term), T.REAL)
+
+
+def b_setunion(ex: Exec, node: ast.Call) -> SV:
+    """setunion(a, b): pointwise union of two sets (same construction as set.update)."""
+    a = ex.eval(node.args[0])
+    b = ex.eval(node.args[1])
+    at = a.t if a.ty.kind == "raw" else ex.ddom(a)
+    bt = b.t if b.ty.kind == "raw" else ex.ddom(b)
+    k = z3.Const("k!sm", S.Val)
+    return SV(z3.Lambda([k], z3.Or(z3.Select(at, k), z3.Select(bt, k))), T.RAW)
+
+
+def b_subset(ex: Exec, node: ast.Call) -> SV:
+    """subset(a, b): every member of a is a member of b (same construction as set.issubset)."""
+    a = ex.eval(node.args[0])
+    b = ex.eval(node.args[1])
+    at = a.t if a.ty.kind == "raw" else ex.ddom(a)
+    bt = b.t if b.ty.kind == "raw" else ex.ddom(b)
+    k = z3.Const("k!sm", S.Val)
+    return sv_bool(z3.ForAll([k], z3.Implies(z3.Select(at, k), z3.Select(bt, k))))
 
 
 def _apply2(g, a, b):
@@ -438,6 +468,8 @@ _TABLE = {
     "concat": b_concat,
     "distinct_keys": b_distinct_keys,
     "fold_prefix": b_fold_prefix,
+    "setunion": b_setunion,
+    "subset": b_subset,
     "dict_wf": b_dict_wf,
     "before": b_before,
     "all_in": b_all_in,
